@@ -44,6 +44,9 @@ pub fn exec_case(seed: &Seed, bytes: &[u8], ctx: &[Vec<u8>], w: &mut Walker) {
     }
     for (d, a) in &seed.drivers {
         w.tagb(0xD0);
+        // each typed driver gets its own full visit budget: a walk that exhausted the horizon (for instance on a
+        // runaway iterator) must not starve the drivers
+        w.nodes = 0;
         let calls = w.calls;
         (drivers::DRIVERS[*d].run)(bytes, ctx, *a, w);
         if seed.ty.is_none() && w.calls - calls >= 16 {
